@@ -5,12 +5,13 @@
    Proved for ALL histories: no error state and get / rm / count answer like a dictionary, also when notifier
    registrations create and release value-less nodes in between; complete / abandoned qb_map_foreach visits every
    present key exactly once.  NOT proved here (checked on generated scripts against the implementation by the
-   monitor of vlib/maptrie.py, see reports/maptrie.md): prefix iteration. *)
+   monitor of vlib/maptrie.py): nothing of C17 for the trie any more; iterators under modification: PropertiesTrie_C18.v. *)
 From Coq Require Import List ZArith.
 Require Import Verif.gen.Consts_trie Verif.MapTrieModel Verif.MapTrieSpec Verif.MapTrieProofs Verif.MapTrieProofs2
                Verif.MapTrieProofs3 Verif.MapTrieRefuted Verif.MapTrieIter Verif.MapTrieIds Verif.MapTrieIter4
                Verif.MapTrieIter6 Verif.MapTrieOrder Verif.MapTrieNotify Verif.MapTrieNotify2 Verif.MapTrieNotify3
-               Verif.MapTrieNotify4 Verif.MapTrieDestroy2 Verif.MapTrieDestroy3.
+               Verif.MapTrieNotify4 Verif.MapTrieDestroy2 Verif.MapTrieDestroy3 Verif.MapTriePrefix1 Verif.MapTriePrefix3
+               Verif.MapTriePrefix4 Verif.MapTriePrefix5.
 Import ListNotations.
 
 (* TRIE_CHAR2INDEX as modelled equals the macro of the working tree on all 256 byte values (table regenerated
@@ -113,6 +114,19 @@ Theorem C17T_destroy_all_histories : forall fx hs, f_rm fx = true -> valid_hist 
                     full_ok [] [] hs outs /\ enum (fst (spec_final [] [] hs)) L.
 Proof. exact trie_c17_destroy. Qed.
 Print Assumptions C17T_destroy_all_histories.
+
+(* PREFIX ITERATOR, all histories: after any valid history a complete prefix iteration (qb_map_pref_iter_create,
+   qb_map_iter_next until NULL, qb_map_iter_free) reaches no error state, returns exactly the entries of the
+   enumeration whose key has the prefix - in the same ascending order, each once - and leaves the map exactly as it
+   was, so that the rest of the history (further iterations included) proceeds as if nothing had happened *)
+Theorem C17T_prefix_iteration_all_histories : forall fx hs h pre, f_rm fx = true -> valid_hist [] [] hs -> pre <> [] ->
+  exists outs t' L, run fx trie_init (map iop_op hs) = (outs, Ok t') /\ full_ok [] [] hs outs /\
+    enum (fst (spec_final [] [] hs)) L /\
+    forall rest, run fx t' (prefix_ops h pre (length (filter (has_prefix pre) L)) ++ rest) =
+                 ((RUnit, []) :: map kvfmt (filter (has_prefix pre) L) ++ (RKV None, []) :: (RUnit, []) :: fst (run fx t' rest),
+                  snd (run fx t' rest)).
+Proof. exact trie_prefix_iteration. Qed.
+Print Assumptions C17T_prefix_iteration_all_histories.
 
 (* non-vacuity and illustration: a global recursive notifier (fn 0, user data 7), a FREE notifier (fn 1), a
    recursive prefix notifier on "a" (fn 2): put ab 1; put ab 2 (replace); rm ab; count *)
